@@ -15,7 +15,7 @@ from ..cfg import cfg_of, CNode
 from ..decide import truth_table
 from ..fold import Inst, is_unknown
 from ..spec import tables as T
-from .common import (JWE_CONSUME, JWE_PRODUCE, JWS_CONSUME, JWS_PRODUCE, can_reach_exit, const_value, entries, impls,
+from .common import (resolve_all, JWE_CONSUME, JWE_PRODUCE, JWS_CONSUME, JWS_PRODUCE, can_reach_exit, const_value, entries, impls,
                      is_const, names_in, scope_of, succ_by_label)
 
 
@@ -268,34 +268,43 @@ def r06_2(ctx) -> None:
     csn = cko.self_name
     op = cko.pos_params[1]
 
+    KO = (f"{csn}.get('key_ops')", f"{csn}.dict_value.get('key_ops')")
+    REG = f"{csn}.operation_registry[{op}]"
+
+    def RC(e) -> str:
+        r = resolve_all(eng, cko, e)
+        return r[0] if len(r) == 1 else norm(e)
+
     def atom_c(e):
         if isinstance(e, ast.Compare) and len(e.ops) == 1:
-            l, r = norm(e.left), norm(e.comparators[0])
-            if l == "key_ops" and is_const(e.comparators[0], None):
+            l, r = RC(e.left), RC(e.comparators[0])
+            if l in KO and is_const(e.comparators[0], None):
                 return ("has_key_ops", isinstance(e.ops[0], ast.IsNot))
-            if l == op and r == "key_ops" and isinstance(e.ops[0], (ast.In, ast.NotIn)):
+            if l == op and r in KO and isinstance(e.ops[0], (ast.In, ast.NotIn)):
                 return ("op_listed", isinstance(e.ops[0], ast.In))
             if l == op and r.endswith("operation_registry") and isinstance(e.ops[0], (ast.In, ast.NotIn)):
                 return ("op_known", isinstance(e.ops[0], ast.In))
-        t = norm(e)
-        if t == "key_ops":
+        t = RC(e)
+        if t in KO:
             return ("has_key_ops", True)
-        if t in ("reg.private",):
+        if t == f"{REG}.private":
             return ("reg_private", True)
         if t == f"{csn}.is_private":
             return ("is_private", True)
         return None
     atoms = ["has_key_ops", "op_listed", "reg_private", "is_private", "op_known"]
     tab2 = truth_table(cko, atoms, atom_c)
-    # key_ops must be the key's declared key_ops and reg the registry entry of the operation
-    kd = [d for d in eng.flow._defs(cko).get("key_ops", []) if d[0] == "assign"]
-    okk = len(kd) == 1 and norm(kd[0][1]) in (f"{csn}.get('key_ops')", f"{csn}.dict_value.get('key_ops')")
-    ctx.check(okk, "R06.2", cko, cko.node, f"{cko.short} :: key_ops source", "check_key_op does not read the key's declared key_ops",
-              "key_ops = self.get('key_ops')", construct="key_ops source")
-    rd = [d for d in eng.flow._defs(cko).get("reg", []) if d[0] == "assign"]
-    okr = len(rd) == 1 and norm(rd[0][1]) == f"{csn}.operation_registry[{op}]"
-    ctx.check(okr, "R06.2", cko, cko.node, f"{cko.short} :: registry entry", "check_key_op does not look up the operation's registry entry",
-              "reg = self.operation_registry[operation]", construct="operation registry lookup")
+    # (key_ops is the key's declared key_ops and reg the registry entry of the operation: part of the atoms above)
+    seen_atoms = set()
+    for t_ in cfg_of(cko).nodes:
+        if t_.kind == "test":
+            a_ = atom_c(t_.ast)
+            if a_:
+                seen_atoms.add(a_[0])
+    ctx.check({"has_key_ops", "op_listed"} <= seen_atoms, "R06.2", cko, cko.node, f"{cko.short} :: key_ops source", "check_key_op does not test the operation against the key's declared key_ops",
+              "key_ops = self.get('key_ops'); operation in key_ops", construct="key_ops source")
+    ctx.check({"reg_private", "is_private"} <= seen_atoms, "R06.2", cko, cko.node, f"{cko.short} :: registry entry", "check_key_op does not consult the operation's registry entry",
+              "reg = self.operation_registry[operation]; reg.private", construct="operation registry lookup")
     for vals, outs in tab2.items():
         hk, ol, rp, ip, known = vals
         if not known:
